@@ -55,6 +55,7 @@ Broken == {s \in ihanded : \E j \in 0..(s.hi - s.lo - 1) : Cell(s.arr, s.lo + j)
 P == INSTANCE Stream WITH full <- Full, absStart <- base + start, absPos <- base + pos, freed <- freedTot,
                           reported <- reportedAbs,
                           handed <- {[id |-> s, hi |-> s.ahi] : s \in ihanded},
+                          memk <- (IF TrackMem THEN 0 ELSE -1),     \* the memory configuration frees at once
                           MemFactor <- 16, MemSlack <- MemSlackI
 
 (* ------------------------------------------------------------------------------------------------ *)
